@@ -86,6 +86,28 @@ def dependent_text(rng, obs, files, exp=None, ptr=4):
     return "".join("use %s::%s;\n" % ("::".join(obs), u) for u in sorted(uses)) + "\n" + "\n\n".join(out) + "\n"
 
 
+def capture_probe(rng):
+    """a hand-shaped pair: the observed module gets a name through a MODULE import; a module that is not in
+    its scope (an enclosing module, a sibling, a nested child, an unrelated top-level module) starts to
+    define a type of the same name.  Returns (files, changed files, observed module, description)."""
+    k1, k2 = 4 * rng.randint(1, 6), 4 * rng.randint(7, 12)
+    name = rng.choice(["Vec3", "Node", "Handle"])
+    lib = rng.choice([["lib"], ["core", "math"]])
+    obs = rng.choice([["game", "entity"], ["game", "world", "actor"], ["app"]])
+    where = rng.choice(["ancestor", "sibling", "child", "toplevel"])
+    if where == "ancestor" and len(obs) < 2:
+        where = "toplevel"
+    other = {"ancestor": obs[:rng.randint(1, len(obs) - 1)] if len(obs) > 1 else ["zz"],
+             "sibling": obs[:-1] + ["zz_sibling"], "child": obs + ["zz_child"], "toplevel": ["zz_top"]}[where]
+    files = {"/".join(lib) + ".pyxis": "pub type %s { pub a: [u8; %d] }\n" % (name, k1),
+             "/".join(obs) + ".pyxis": "use %s;\npub type Holder {\n    pub v: %s,\n    pub p: *const %s,\n}\n" % ("::".join(lib), name, name)}
+    if rng.random() < 0.5:
+        files["/".join(other) + ".pyxis"] = "pub type ZzOther { pub a: u32 }\n"
+    new = dict(files)
+    new["/".join(other) + ".pyxis"] = files.get("/".join(other) + ".pyxis", "") + "pub type %s { pub zz: [u8; %d] }\n" % (name, k2)
+    return files, new, tuple(obs), "capture probe: %s starts to define %s (%s of the observed module, not in its scope)" % ("::".join(other), name, where)
+
+
 def unrelated_change(rng, files, dep, obs=None, exp=None, ptr=4):
     """returns (new files, description) or None"""
     mods = [tuple(f[:-6].split("/")) for f in files]
@@ -106,6 +128,24 @@ def unrelated_change(rng, files, dep, obs=None, exp=None, ptr=4):
         # the generated text refers to its own module path only through `use`, which it does not need
         new[name + ".pyxis"] = re.sub(r"^use .*$", "", new[name + ".pyxis"], flags=re.M)
         return new, "added module " + name
+    anc = [m_ for m_ in others if obs is not None and len(m_) < len(obs) and tuple(obs[:len(m_)]) == m_]
+    if obs is not None and rng.random() < (0.7 if anc else 0.25):
+        # a type with the SAME NAME as one the observed module refers to, added to a module outside its
+        # closure (preferably an enclosing module, which is not in scope either); names that reach the
+        # observed module through a module import (no `use ..::Name;` line) are preferred
+        otext = files["/".join(obs) + ".pyxis"]
+        local = set(re.findall(r"\b(?:type|enum)\s+(\w+)", otext))
+        used = sorted(set(re.findall(r"\b([TEX]\d+)\b", otext)) - local)
+        via_mod = [n_ for n_ in used if not re.search(r"^use\s+[\w:]*::%s;" % n_, otext, re.M)]
+        if via_mod and rng.random() < 0.8:
+            used = via_mod
+        if used and (anc or others):
+            m = rng.choice(anc) if anc and rng.random() < 0.7 else rng.choice(others)
+            f = "/".join(m) + ".pyxis"
+            name = rng.choice(used)
+            if not re.search(r"\b(type|enum)\s+%s\b" % name, files[f]):
+                new[f] = files[f] + "\npub type %s { pub zz_same_name: [u8; %d] }\n" % (name, 4 * rng.randint(1, 9))
+                return new, "same-named type %s added to %s (outside the closure)" % (name, "::".join(m))
     m = rng.choice(others)
     f = "/".join(m) + ".pyxis"
     if k < 0.6:
@@ -141,6 +181,13 @@ def runner(pid, prop, tier, seed, scratch, replay=None):
         i = 0
         while len(pairs) < npairs and i < npairs * 6:
             ptr = 4 if i % 2 == 0 else 8
+            if rng.random() < 0.08:
+                i += 1
+                files, newf, obs, what = capture_probe(rng)
+                cases.append(dict(id="c19-%d-a" % len(pairs), ptr=ptr, schedule=[], files=files))
+                cases.append(dict(id="c19-%d-b" % len(pairs), ptr=ptr, schedule=[], files=newf))
+                pairs.append(("/".join(obs) + ".rs", what, True))
+                continue
             files, exp = gen.generate(seed * 1000003 + i, ptr, PROFILE)
             i += 1
             mods = sorted(tuple(f[:-6].split("/")) for f in files)
